@@ -16,6 +16,7 @@ A case (JSON-able dict):
   triggers  [[model, event]]          top-level triggers, tags 0..n-1, started in this order
   script    {"tag:slot:idx": [op]}    what that recorder does when invoked for that tag
                op: ["susp"] | ["trig", model, event, newtag] | ["raise", n] | ["remove", model] | ["add", model] | ["ret", 0|1]
+  delays    [int]       top-level trigger k starts after delays[k] bare `await asyncio.sleep(0)` trips
   schedule  [int]       at the k-th quiescence release pending[schedule[k] % len(pending)] (default 0)
 
 Log items (tuples, first field = kind):
@@ -36,10 +37,12 @@ from . import common  # noqa: F401  (puts the repo under test on sys.path)
 
 from transitions.extensions.asyncio import AsyncMachine, HierarchicalAsyncMachine  # noqa: E402
 
-SLOTS = ['prepare_event', 'prepare', 'conditions', 'before_state_change', 'before', 'on_exit', 'on_enter',
-         'after', 'after_state_change', 'finalize_event', 'on_exception']
-TRANSITION_SLOTS = SLOTS[:9]
-PRE, MID, POST = SLOTS[:3], SLOTS[3:6], SLOTS[6:9]
+PRE = ['prepare_event', 'prepare', 'conditions']
+MID = ['before_state_change', 'before', 'on_exit', 'on_exit_c']        # *_c: callbacks of the nested states B_x / B_y
+POST = ['on_enter', 'on_enter_c', 'after', 'after_state_change']
+TRANSITION_SLOTS = PRE + MID + POST
+FLAT_TRANSITION_SLOTS = [x for x in TRANSITION_SLOTS if not x.endswith('_c')]
+SLOTS = TRANSITION_SLOTS + ['finalize_event', 'on_exception']
 EVENTS = ['go', 'hop', 'stay']
 STATES = ['A', 'B', 'C']
 
@@ -74,6 +77,7 @@ class Run(object):
         self.machine = None
         self.hang = None
         self.nquiet = 0
+        self.trips = 0
         self.recording = False     # state writes are logged (not while models are being attached)
         self.branching = []
 
@@ -155,7 +159,8 @@ class Run(object):
         if case['hsm']:
             states = [{'name': 'A', 'on_enter': recs('on_enter'), 'on_exit': recs('on_exit')},
                       {'name': 'B', 'on_enter': recs('on_enter'), 'on_exit': recs('on_exit'), 'initial': 'x',
-                       'children': [{'name': 'x'}, {'name': 'y'}]},
+                       'children': [{'name': 'x', 'on_enter': recs('on_enter_c'), 'on_exit': recs('on_exit_c')},
+                                    {'name': 'y', 'on_enter': recs('on_enter_c'), 'on_exit': recs('on_exit_c')}]},
                       {'name': 'C', 'on_enter': recs('on_enter'), 'on_exit': recs('on_exit')}]
         else:
             states = [{'name': s, 'on_enter': recs('on_enter'), 'on_exit': recs('on_exit')} for s in STATES]
@@ -167,6 +172,8 @@ class Run(object):
                        tr('stay', 'A', None), tr('stay', 'B', None), tr('stay', 'C', None)]
         if case['hsm']:
             transitions.append(tr('hop', 'B_x', 'B_y'))
+            # `nest`: valid from every state; from a child of B it goes to the parent B (exits the child, re-enters the initial child x)
+            transitions += [tr('nest', 'A', 'B'), tr('nest', 'B_x', 'B'), tr('nest', 'B_y', 'B'), tr('nest', 'C', 'B')]
         q = {0: False, 1: True, 2: 'model'}[case['queued']]
         attach = case.get('attach', 'ctor')
         late = case.get('late', [])
@@ -295,6 +302,10 @@ class Run(object):
         return snap
 
     async def top(self, tag, mi, ev):
+        # arrival at an arbitrary loop iteration: `delays[tag]` bare trips through the event loop first
+        delays = self.case.get('delays', [])
+        for _ in range(delays[tag] if tag < len(delays) else 0):
+            await asyncio.sleep(0)
         return await self.call_trigger(tag, mi, ev)
 
     async def controller(self, loop):
@@ -326,6 +337,7 @@ class Run(object):
             while True:
                 await asyncio.sleep(0)
                 spins += 1
+                self.trips += 1
                 if not loop._ready:
                     break
                 if spins > 20000:
